@@ -77,6 +77,7 @@ Corners(op) ==
     IF op \in {"WriteWithXattrs", "WriteUpdateWithXattrs", "SetWithMeta", "DeleteWithMeta", "WriteCas"}
     THEN {a \in ArgsFor(op) : a.sets = NoSets /\ a.dels = NoDels /\ a.exp = "0" /\ ~a.pres /\ a.casc \in {"zero", "cur"}
                                /\ a.newc \in {"hi", "btw"}}
+         \cup {a \in ArgsFor(op) : a.opt = "emptyx" /\ a.newc = "hi"}
     ELSE {}
 Sample(op) == IF Cardinality(ArgsFor(op)) <= Cap THEN ArgsFor(op) ELSE RandomSubset(Cap, ArgsFor(op)) \cup Corners(op)
 
